@@ -463,11 +463,18 @@ func (x *Exec) cutLoop(st *State, ls *LoopSpec, id, label string, nodes []ast.No
 	mkEnv := func(s *State) *SpecEnv { return x.specEnv(s) }
 	// entry
 	for i, inv := range ls.Invariants {
-		g, facts := mkEnv(st).evalWithFacts(inv.Expr)
-		for _, f := range facts {
-			st.assume(f)
+		parts := splitConj(inv.Expr)
+		for j, p := range parts {
+			g, facts := mkEnv(st).evalWithFacts(p)
+			for _, f := range facts {
+				st.assume(f)
+			}
+			name := fmt.Sprintf("inv-entry[loop%s.%d]", id, i)
+			if len(parts) > 1 {
+				name = fmt.Sprintf("inv-entry[loop%s.%d.%d]", id, i, j)
+			}
+			x.obligeNamed(st, name, "inv-entry", g, pos, inv.Text)
 		}
-		x.obligeNamed(st, fmt.Sprintf("inv-entry[loop%s.%d]", id, i), "inv-entry", g, pos, inv.Text)
 	}
 	// havoc
 	h := st.clone()
@@ -515,6 +522,9 @@ func (x *Exec) cutLoop(st *State, ls *LoopSpec, id, label string, nodes []ast.No
 		ms := x.modset(x.entryEnv(st), x.ct)
 		for _, k := range eff.kindsW() {
 			if k.Tag == "global" {
+				continue
+			}
+			if hasAll(ms[k.Name]) {
 				continue
 			}
 			names, sorts := x.vc.heapVars(k)
@@ -595,11 +605,18 @@ func (x *Exec) cutLoop(st *State, ls *LoopSpec, id, label string, nodes []ast.No
 				x.obligeNamed(f.next, fmt.Sprintf("inv-step[loop%s.frame.%s]", id, fi.hv), "inv-step", frameGoal(f.next, fi, r), pos, "frame preserved by the loop body: "+fi.hv)
 			}
 			for i, inv := range ls.Invariants {
-				g, facts := mkEnv(f.next).evalWithFacts(inv.Expr)
-				for _, ft := range facts {
-					f.next.assume(ft)
+				parts := splitConj(inv.Expr)
+				for j, p := range parts {
+					g, facts := mkEnv(f.next).evalWithFacts(p)
+					for _, ft := range facts {
+						f.next.assume(ft)
+					}
+					name := fmt.Sprintf("inv-step[loop%s.%d]", id, i)
+					if len(parts) > 1 {
+						name = fmt.Sprintf("inv-step[loop%s.%d.%d]", id, i, j)
+					}
+					x.obligeNamed(f.next.clone(), name, "inv-step", g, pos, inv.Text)
 				}
-				x.obligeNamed(f.next, fmt.Sprintf("inv-step[loop%s.%d]", id, i), "inv-step", g, pos, inv.Text)
 			}
 			if ls.Decreases != nil {
 				dec1 := mkEnv(f.next).eval(ls.Decreases.Expr).T
@@ -752,6 +769,9 @@ func (x *Exec) defineLoopVar(st *State, e ast.Expr, v Value) {
 
 func (x *Exec) rangeIndexed(st *State, s *ast.RangeStmt, label string, ls *LoopSpec, id string, u types.Type) Flow {
 	hdr := x.expr(st, s.X)
+	rangeObj := types.NewVar(s.Pos(), x.pkg.Types, "_range"+id, x.typeOf(s.X))
+	x.names["_range"+id] = rangeObj
+	st.vars[rangeObj] = Value{T: hdr.T, Ty: x.typeOf(s.X)}
 	var n Term
 	var elemAt func(stt *State, i Term) Value
 	var intT types.Type = types.Typ[types.Int]
@@ -875,6 +895,9 @@ func (x *Exec) rangeMap(st *State, s *ast.RangeStmt, label string, ls *LoopSpec,
 		x.unsup(s.Pos(), "range over map (loop %s) needs an invariant", id)
 	}
 	mv := x.expr(st, s.X)
+	rangeObj := types.NewVar(s.Pos(), x.pkg.Types, "_range"+id, x.typeOf(s.X))
+	x.names["_range"+id] = rangeObj
+	st.vars[rangeObj] = Value{T: mv.T, Ty: x.typeOf(s.X)}
 	ks := x.vc.sortOf(m.Key())
 	visSort := arraySort(ks, "Bool")
 	visObj := types.NewVar(s.Pos(), x.pkg.Types, "_visited"+id, types.NewMap(m.Key(), types.Typ[types.Bool]))
